@@ -369,3 +369,33 @@ Fixpoint group_body (g : nat) (r : rx) : option rx :=
   | _ => None
   end.
 End Lengths.
+
+(* ---------- 6. characters at which a rule can NOT start ---------- *)
+Section Excludes.
+Variable U : uni.
+Variable L : list Z.
+
+Definition first_excludes (r : rx) : bool :=
+  forallb (fun cs => negb (cs_neg cs) && forallb (item_avoids U L) (cs_items cs)) (first r).
+
+Lemma first_excludes_sound r ch : first_excludes r = true -> in_first U r ch = true -> memc ch L = false.
+Proof.
+  unfold first_excludes, in_first. intros Hw Hin. apply existsb_exists in Hin. destruct Hin as (cs & Hcs & Hm).
+  rewrite forallb_forall in Hw. specialize (Hw cs Hcs). apply andb_true_iff in Hw. destruct Hw as [Hn Hit].
+  apply negb_true_iff in Hn. unfold cs_mem, in_class in Hm. rewrite Hn, xorb_false_l in Hm.
+  apply existsb_exists in Hm. destruct Hm as (it & Hi & Hit2). rewrite forallb_forall in Hit.
+  exact (item_avoids_sound U L it ch (Hit it Hi) Hit2).
+Qed.
+
+Theorem cannot_start_at r z ch : wf r = true -> nullable r = false -> first_excludes r = true ->
+  hd_error (z_rest z) = Some ch -> memc ch L = true -> match_at U r z = None.
+Proof.
+  intros W Hn Hf Hh Hl. destruct (match_at U r z) as [res|] eqn:E; [|reflexivity]. exfalso.
+  destruct (match_sound U r z res W E) as (z' & c' & HM & _).
+  destruct (Nat.eq_dec (z_idx z') (z_idx z)) as [He|Hne].
+  - rewrite (nullable_sound U r _ _ _ _ HM He) in Hn. discriminate.
+  - pose proof (M_idx_le U r _ _ _ _ HM). destruct (first_sound U r _ _ _ _ HM ltac:(lia)) as (ch2 & Hh2 & Hin).
+    rewrite Hh in Hh2. inversion Hh2; subst ch2.
+    rewrite (first_excludes_sound r ch Hf Hin) in Hl. discriminate.
+Qed.
+End Excludes.
